@@ -171,6 +171,16 @@ def main():
             print(f'  signature: {sig}')
             print(f'  {rec["detail"][:400]}')
             return 1
+        if not args.replay and 'LibraryFault: ' in tb:
+            what = tb.split('LibraryFault: ')[-1].strip().splitlines()[0]
+            sig = f'{prop}|{what.split("|")[0]}'
+            rec = {'case': {'traceback': tb[-6000:]}, 'detail': what.split('|', 1)[-1][:400],
+                   'expected': 'well-formed XML', 'observed': 'not well-formed', 'count': 1}
+            path = findings.write_replay(prop, sig, rec, seed, False)
+            print(f'VIOLATION property={prop} replay={path}')
+            print(f'  signature: {sig}')
+            print(f'  {rec["detail"][:400]}')
+            return 1
         if not args.replay and ('FlakyStrategyDefinition' in tb or 'FlakyFailure' in tb or 'hypothesis.errors.Flaky' in tb):
             # Hypothesis replays every case it generates; the generators and judges here are pure
             # functions of the drawn values and of what the library returns.  A replay that goes
